@@ -39,6 +39,7 @@ Definition exn_eqb (a b : exn) : bool :=
   | ZeroDivisionError, ZeroDivisionError | RecursionError, RecursionError => true
   | UserError i, UserError j => Nat.eqb i j
   | Unsupported, Unsupported => true
+  | TypeCheck, TypeCheck => true
   | _, _ => false
   end.
 Definition res_eqb {A} (e : A -> A -> bool) (a b : res A) : bool :=
@@ -325,3 +326,13 @@ Definition chk_record (r : rtreeQ) (script : list nat) (expected : res (rolltree
   | Some (Err e1), Err e2 => exn_eqb e1 e2
   | _, _ => false
   end.
+
+(* ---- C19: argument validation ---- *)
+From Dyce Require Export Model.Guards.
+Definition chk_guard_z (g : res Z) (expected : res Z) : bool := res_eqb Z.eqb g expected.
+Definition chk_guard_nat (g : res nat) (expected : res nat) : bool := res_eqb Nat.eqb g expected.
+Definition chk_guard_unit (g : res unit) (ok : bool) (e : exn) : bool :=
+  match g with Ok _ => ok | Err e' => negb ok && exn_eqb e e' end.
+Definition chk_limit_guard (bt : bool) (a : arg) (ok : bool) (e : exn) : bool :=
+  match limit_guard bt a with Ok _ => ok | Err e' => negb ok && exn_eqb e e' end.
+Definition chk_parity (a : arg) (expected : res bool) : bool := res_eqb Bool.eqb (parity_guard a) expected.
